@@ -263,7 +263,7 @@ def rsa_low_hamming(r, bits=2048):
 
 
 def rsa_bit_pattern(r, bits=2048, psize=None):
-  psize = psize or r.choice([8, 16, 32, 64, 127, 128, 255, 256])
+  psize = psize or r.choice([8, 16, 32, 64, 127, 128, 255, 256, 255, 256])
   if psize >= 127:
     bits = 3072       # large patterns need n.bit_length() // 8 >= psize
   half = bits // 2
